@@ -826,3 +826,64 @@ Proof.
           apply prefixb_app in Ha; destruct Ha as [rest Hrest]; eexists; exists rest; (split; [|exact Hrest]); unfold entities; cbn [In]; tauto.
       * injection E as -> E. apply (Hamp pre post E).
 Qed.
+
+(* ================================================================ SARIF uri *)
+From SG Require Import Report.Uri.
+
+Lemma hexval_hexdigit : forall d, d < 16 -> hexval (hexdigit d) = Some d.
+Proof.
+  intros d H. unfold hexdigit, hexval. destruct (N.ltb_spec d 10) as [L|L].
+  - replace ((48 <=? 48 + d) && (48 + d <=? 57)) with true by (symmetry; apply andb_true_iff; split; apply N.leb_le; lia).
+    f_equal. lia.
+  - replace ((48 <=? 55 + d) && (55 + d <=? 57)) with false by (symmetry; apply andb_false_iff; right; apply N.leb_gt; lia).
+    replace ((65 <=? 55 + d) && (55 + d <=? 70)) with true by (symmetry; apply andb_true_iff; split; apply N.leb_le; lia).
+    f_equal. lia.
+Qed.
+
+Lemma upper_hex_hexdigit : forall d, d < 16 -> is_upper_hex (hexdigit d) = true.
+Proof.
+  intros d H. unfold hexdigit, is_upper_hex. destruct (N.ltb_spec d 10) as [L|L]; apply orb_true_iff; [left|right];
+    apply andb_true_iff; split; apply N.leb_le; lia.
+Qed.
+
+Lemma uri_keeps_not_percent : forall b, uri_keeps b = true -> N.eqb b c_percent = false.
+Proof.
+  intros b H. apply N.eqb_neq. intro E. subst b. vm_compute in H. discriminate.
+Qed.
+
+Lemma uri_decode_step : forall b r, b < 256 -> uri_decode (uri_enc1 b ++ r) = b :: uri_decode r.
+Proof.
+  intros b r H. unfold uri_enc1. destruct (uri_keeps b) eqn:K.
+  - cbn [app uri_decode]. rewrite (uri_keeps_not_percent _ K). reflexivity.
+  - cbn [app uri_decode]. unfold c_percent at 1. rewrite N.eqb_refl.
+    assert (H1 : b / 16 < 16) by (apply N.div_lt_upper_bound; lia).
+    assert (H2 : b mod 16 < 16) by (apply N.mod_lt; lia).
+    rewrite (hexval_hexdigit _ H1), (hexval_hexdigit _ H2). f_equal.
+    rewrite (N.div_mod b 16) at 3 by lia. reflexivity.
+Qed.
+
+Lemma uri_roundtrip : forall p, Forall (fun b => b < 256) p -> uri_decode (uri_encode p) = p.
+Proof.
+  induction p as [|b p IH]; intro H; [reflexivity|]. inversion H; subst.
+  unfold uri_encode in *. cbn [flat_map]. rewrite uri_decode_step by assumption. rewrite IH by assumption. reflexivity.
+Qed.
+
+Lemma uri_ok_step : forall b r, b < 256 -> uri_ok (uri_enc1 b ++ r) = uri_ok r.
+Proof.
+  intros b r H. unfold uri_enc1. destruct (uri_keeps b) eqn:K.
+  - cbn [app uri_ok]. rewrite (uri_keeps_not_percent _ K), K. reflexivity.
+  - cbn [app uri_ok]. unfold c_percent at 1. rewrite N.eqb_refl.
+    assert (H1 : b / 16 < 16) by (apply N.div_lt_upper_bound; lia).
+    assert (H2 : b mod 16 < 16) by (apply N.mod_lt; lia).
+    rewrite (upper_hex_hexdigit _ H1), (upper_hex_hexdigit _ H2). reflexivity.
+Qed.
+
+Lemma uri_encode_ok : forall p, Forall (fun b => b < 256) p -> uri_ok (uri_encode p) = true.
+Proof.
+  induction p as [|b p IH]; intro H; [reflexivity|]. inversion H; subst.
+  unfold uri_encode in *. cbn [flat_map]. rewrite uri_ok_step by assumption. apply IH. assumption.
+Qed.
+
+Lemma uri_encode_injective : forall p q, Forall (fun b => b < 256) p -> Forall (fun b => b < 256) q ->
+  uri_encode p = uri_encode q -> p = q.
+Proof. intros p q Hp Hq E. rewrite <- (uri_roundtrip p Hp), <- (uri_roundtrip q Hq), E. reflexivity. Qed.
